@@ -79,6 +79,12 @@ func wireEngine(port string, repo string) {
 		for i := 0; i < 3; i++ {
 			ctx, cancel := context.WithTimeout(context.Background(), 5*time.Second)
 			_, err := pb.NewListerClient(probeConn).ListAccounts(ctx, &pb.ListAccountsRequest{Paths: []string{"Wallet 1"}})
+			if err == nil {
+				// …and a (stateless) signing request must still be answered too: a daemon that lists but no longer signs is not serving
+				dom := make([]byte, 32)
+				dom[0] = 2
+				_, err = pb.NewSignerClient(probeConn).Sign(ctx, &pb.SignRequest{Id: &pb.SignRequest_Account{Account: "Wallet 1/Account 0"}, Data: make([]byte, 32), Domain: dom})
+			}
 			cancel()
 			if err == nil {
 				return "alive"
@@ -143,7 +149,16 @@ func wireEngine(port string, repo string) {
 		}
 		var reply []byte
 		t0 := time.Now()
-		ctx, cancel := context.WithTimeout(context.Background(), 30*time.Second)
+		// "dl:<ms>:<method>": the caller gives up after that many milliseconds (the server sees the request's context end
+		// wherever it happens to be)
+		callTimeout := 30 * time.Second
+		if strings.HasPrefix(f[0], "dl:") {
+			p := strings.SplitN(f[0], ":", 3)
+			ms, _ := strconv.Atoi(p[1])
+			callTimeout = time.Duration(ms) * time.Millisecond
+			f[0] = p[2]
+		}
+		ctx, cancel := context.WithTimeout(context.Background(), callTimeout)
 		err := get(f[1]).Invoke(ctx, f[0], &payload, &reply, grpc.ForceCodec(rawCodec{}))
 		cancel()
 		if d := time.Since(t0); d > 2*time.Second {
